@@ -1562,3 +1562,34 @@ pub fn xzblk_read_block_empty_crc32() {
 pub fn xzblk_read_block_empty_crc64() {
     read_block_empty::<4>()
 }
+
+
+//@ harness props=C18,C03,C07 tier=quick unwind=8 unwindset=default_read_exact:4,flush_zero_padding:10 mem_gb=6 timeout=600
+//@ bound: read_block_header directly with a FIVE-byte multibyte filter id (low 7 bits and bits 28..34 symbolic, the middle groups zero), flags 0, one property byte, padding zero: accepted only for id 0x21 (no truncation to 32 bits)
+#[cfg_attr(kani, kani::proof)]
+#[cfg_attr(kani, kani::stub(std::fmt::format, crate::verif_common::stub_format))]
+#[cfg_attr(kani, kani::stub(std::io::Error::is_interrupted, crate::verif_common::stub_not_interrupted))]
+pub fn xzblk_header_five_byte_filter_id() {
+    let mut t = Tape::<16>::new();
+    let lo = t.u8() & 0x7F;
+    let hi = t.u8() & 0x7F;
+    let prop = t.u8();
+    // flags, id (5 bytes), size of properties, property, 3 padding bytes = 11 bytes (+ size byte = 12)
+    let f = [0x00u8, 0x80 | lo, 0x80, 0x80, 0x80, hi, 0x01, prop, 0, 0, 0, 0xEE];
+    // the reader ends with the header (in read_block it is a Take of the header size): the
+    // padding scan runs to its end
+    let mut rd = ArrReader::<12>::new(f, 11);
+    let r = read_block_header(&mut rd, 11);
+    let id = (lo as u64) | ((hi as u64) << 28);
+    match &r {
+        Ok(_) => {
+            vassert!(id == 0x21, "block header: a filter id other than LZMA2 (0x21) is refused, whatever its encoding length");
+        }
+        Err(_) => {
+            vassert!(id != 0x21, "block header: the LZMA2 filter id is accepted also in a non-minimal encoding");
+        }
+    }
+    vcover!(id == 0x1_0000_0021, "id_2pow32_plus_0x21");
+    vcover!(r.is_ok(), "five_byte_id_ok");
+    forget(r);
+}
